@@ -40,6 +40,32 @@ func main() {
 		case "-worker":
 			worker()
 			return
+		case "explore":
+			// debugging aid: vsched explore <prop> <scenario-substring> <bound>
+			var bound int
+			fmt.Sscanf(os.Args[4], "%d", &bound)
+			for _, j := range grid(os.Args[2], true) {
+				if strings.Contains(j.Sc.Name, os.Args[3]) {
+					sc := j.Sc
+					res := e1.Explore(&sc, bound, true, time.Now().Add(300*time.Second))
+					fmt.Printf("%s bound=%d execs=%d pruned=%d states=%d complete=%v\n  outcomes=%v\n", sc.Name, bound, res.Execs, res.Pruned, res.States, res.Complete, res.Outcomes)
+					for k, f := range res.Findings {
+						fmt.Printf("  FINDING %s x%d: %s\n     choices=%v\n", k, f.Count, f.What, f.Choices)
+						rec := e1.Execute(&sc, vrt.Config{Prefix: f.Choices, Budget: -1, Tracing: true})
+						pi := 0
+						for _, l := range rec.Sched.Trace {
+							fmt.Println("       ", l)
+						}
+						for i, p := range rec.Sched.Points {
+							if p.Chosen != 0 {
+								fmt.Printf("     point %d: chose %d of %d costly=%v kind=%c alts=[%s]\n", i, p.Chosen, p.N, p.Costly, p.Kind, p.Alts)
+							}
+						}
+						_ = pi
+					}
+				}
+			}
+			return
 		}
 	}
 	for _, id := range []string{"C04", "C05", "C06", "C07", "C08"} {
